@@ -70,7 +70,15 @@ func facts() map[string]any {
 		return dnsutil.CalculateCacheTTL(m, dnsutil.TypeSuccess)
 	})
 	bigCut, bigProof := histBigMax()
+	// the ECS cap survives cache.New's "using defaults" fallback (cachesize below 1024)
+	fb := &config.Config{CacheSize: 0, Expire: 600}
+	fb.ECS = config.ECSConfig{Enabled: true, ForwardV4Max: 24, ForwardV6Max: 56, MinScopeV4: 24, MinScopeV6: 56,
+		CacheLimitTTL: config.Duration{Duration: 7 * time.Second}}
+	fbc := cache.New(fb)
+	fbCap := cache.VerifC04ECSMax(fbc)
+	fbc.Stop()
 	return map[string]any{
+		"ecs_cap_under_fallback_ns": int64(fbCap),
 		"hist_cut_max_big_ns":   bigCut,
 		"hist_proof_max_big_ns": bigProof,
 		"minCacheTTL_ns":        int64(dnsutil.MinCacheTTL),
